@@ -4,7 +4,7 @@
   A series is a `TS` (strictly increasing integer times in µs, `none` = NaN); a frame is a list of rows
   `(time, column values)` with a known width.  Bounds are a date (`Bound.date`, µs), a time of day
   (`Bound.time`, µs since midnight) or absent.  pandas calls are replaced by reference functions
-  (assumptions sampled by correspondence): boolean masks and the label slice `df[lb:ub]` ↦ `List.filter`,
+  (assumptions sampled by correspondence): boolean masks ↦ `List.filter`, the label slice `df[lb:ub]` ↦ `labelSlice` (drop / take while),
   `pd.concat(axis=1)` (+ the `sort_index` of the repaired code) ↦ outer join on the sorted union index,
   `pd.concat` ↦ `++` with NaN padding, `sort_index` ↦ a stable sort by time, `nona` ↦ dropping NaN rows.
 -/
@@ -64,14 +64,48 @@ def ubOk (u : Bool) (ub : Bound) (t : Int) : Bool :=
 
 abbrev Rows (α : Type) := List (Int × α)
 
-/-- `_df_slice` (lines 1547-1582) on a datetime-indexed series / frame.  The pandas fast path `df[lb:ub]`
-    (taken for closed-closed brackets) is assumed to select the same rows as the two masks. -/
+/-- `_is_non_decreasing` on a list of dates; also `index.is_monotonic_increasing` -/
+def nonDecreasing : List Int → Bool
+  | a :: b :: rest => decide (a ≤ b) && nonDecreasing (b :: rest)
+  | _ => true
+
+/-- `df.index.is_monotonic_increasing` -/
+def increasing {α} (df : Rows α) : Bool := nonDecreasing (df.map (·.1))
+
+/-- a bound as a label of `df[lb:ub]`: a missing bound is `None`, a date its timestamp; a time of day is no label -/
+def Bound.label : Bound → Option (Option Int)
+  | .none => some Option.none
+  | .date t => some (some t)
+  | .time _ => Option.none
+
+/-- the pandas label slice `df[lb:ub]` on a non-decreasing DatetimeIndex (`searchsorted` left / right): from the
+    first row at or after `lb` to the last row at or before `ub`, both ends included; `None` = open end.
+    Defined for every row list (positions are found by scanning), meaningful on a sorted one. -/
+def labelSlice {α} (df : Rows α) (lb ub : Option Int) : Rows α :=
+  let df := match lb with
+    | some a => df.dropWhile fun r => decide (r.1 < a)
+    | Option.none => df
+  match ub with
+  | some b => df.takeWhile fun r => decide (r.1 ≤ b)
+  | Option.none => df
+
+/-- `_df_slice` (lines 1547-1582) on a datetime-indexed series / frame.
+    With both applicable brackets closed the code first tries the pandas label slice `df[lb:ub]` (1562-1566):
+    * date / missing bounds on a non-decreasing index: `labelSlice` (repaired code, F13: the label slice is taken
+      only when `index.is_monotonic_increasing`; on any other order pandas cuts by POSITION of the labels);
+    * two times of day: `indexer_between_time`, a mask with both ends included = the two masks below;
+    * one time of day and a date / nothing: pandas raises `KeyError`, the code falls through to the masks.
+    Otherwise the two boolean masks (1572-1581). -/
 def sliceOne {α} (df : Rows α) (lb ub : Bound) (oc : Option (List Char)) : Res (Rows α) :=
   if df.isEmpty || (lb.isNone && ub.isNone) then .ok df          -- 1556: nothing is parsed, nothing is cut
   else do
     let (l, u) ← brackets oc
-    let df := df.filter fun r => lbOk l lb r.1
-    pure (df.filter fun r => ubOk u ub r.1)
+    let masks := (df.filter fun r => lbOk l lb r.1).filter fun r => ubOk u ub r.1
+    if (l || lb.isNone) && (u || ub.isNone) && increasing df then
+      match lb.label, ub.label with
+      | some a, some b => pure (labelSlice df a b)
+      | _, _ => pure masks
+    else pure masks
 
 /-- `sort_index()` -/
 def sortIndex {α} (df : Rows α) : Rows α := df.mergeSort (fun a b => decide (a.1 ≤ b.1))
@@ -94,11 +128,6 @@ structure Frame where
   width : Nat
   rows : Rows (List (Option Int))
   deriving Repr, Inhabited, DecidableEq
-
-/-- `_is_non_decreasing` on a list of dates -/
-def nonDecreasing : List Int → Bool
-  | a :: b :: rest => decide (a ≤ b) && nonDecreasing (b :: rest)
-  | _ => true
 
 /-- sorted union of the indexes: the index of `pd.concat(dfs, axis=1).sort_index()` -/
 def unionIndex (dfs : List TS) : List Int :=
